@@ -46,6 +46,21 @@ std::string varName(const VariablePtr &v)
     return (comp != nullptr ? comp->name() : std::string("<orphan>")) + "." + v->name();
 }
 
+// transitively reads an NLA unknown that carries an initial guess (localisation token for a known finding)
+bool readsGuessedUnknown(const TM &m, size_t k, int depth = 0)
+{
+    if (depth > 64) {
+        return false;
+    }
+    for (int d : m.classes[k].deps) {
+        const TClass &t = m.classes[static_cast<size_t>(d)];
+        if ((t.role == GtRole::NLA && t.guess) || readsGuessedUnknown(m, static_cast<size_t>(d), depth + 1)) {
+            return true;
+        }
+    }
+    return false;
+}
+
 struct Fail
 {
     std::string &sig, &msg;
@@ -385,13 +400,29 @@ bool wellFormed(const AnalyserModelPtr &am, const ModelPtr &model, std::map<Vari
 
 } // namespace
 
+std::string Obs::dump() const
+{
+    return am != nullptr ? dumpAnalyserModel(am) : std::string();
+}
+
 void analyse(const TM &m, Obs &o)
 {
     o = Obs();
     Fail fail {o.sig, o.msg};
     Built b = buildApi(m.spec);
     auto analyser = Analyser::create();
-    analyser->analyseModel(b.model);
+    try {
+        analyser->analyseModel(b.model);
+    } catch (const std::exception &e) {
+        // the rest of the case is still worth running: report and carry on
+        o.type = "exception";
+        fail(std::string("C05.exception|Analyser::analyseModel|") + e.what(), std::string("Analyser::analyseModel() let an exception escape: ") + e.what());
+        o.role.assign(m.classes.size(), "");
+        o.eqKinds.assign(m.classes.size(), "");
+        o.primary.assign(m.classes.size(), -1);
+        o.systemOf.assign(m.classes.size(), -1);
+        return;
+    }
     std::string lg = checkLogger(analyser);
     if (!lg.empty()) {
         fail("C15.monitor|Analyser|" + lg.substr(0, lg.find('|')), lg);
@@ -425,7 +456,8 @@ void analyse(const TM &m, Obs &o)
     if (!o.valid) {
         return;
     }
-    o.dump = dumpAnalyserModel(am);
+    o.model = b.model;
+    o.am = am;
     std::map<Variable *, int> hclass;
     size_t nh = 0;
     std::vector<AnalyserVariablePtr> avOfH;
@@ -563,7 +595,7 @@ std::string checkTruth(const TM &m, const Obs &o, std::string &msg)
         }
         if (!ok) {
             msg = "class " + std::to_string(k) + " (" + firstInstance(k) + ") is " + gtRoleName(t.role) + " by construction, the analyser reports '" + got + "'";
-            return "C05.truth|role|" + std::string(gtRoleName(t.role)) + "->" + (got.empty() ? "absent" : got);
+            return "C05.truth|role|" + std::string(gtRoleName(t.role)) + "->" + (got.empty() ? "absent" : got) + (readsGuessedUnknown(m, k) ? "|reader-of-guessed-unknown" : "");
         }
         // kind of equation computing it
         const std::string &ek = o.eqKinds[k];
@@ -588,7 +620,7 @@ std::string checkTruth(const TM &m, const Obs &o, std::string &msg)
         }
         if (!kindOk) {
             msg = "class " + std::to_string(k) + " (" + firstInstance(k) + ", " + gtRoleName(t.role) + ") should be computed by: " + wantKind + "; the analyser computes it by: " + (ek.empty() ? "nothing" : ek);
-            return "C05.truth|equation-kind|" + std::string(gtRoleName(t.role)) + "->" + (ek.empty() ? "none" : ek);
+            return "C05.truth|equation-kind|" + std::string(gtRoleName(t.role)) + "->" + (ek.empty() ? "none" : ek) + (readsGuessedUnknown(m, k) ? "|reader-of-guessed-unknown" : "");
         }
     }
     // coherence of the reported roles with what each directly defined class reads
@@ -608,7 +640,7 @@ std::string checkTruth(const TM &m, const Obs &o, std::string &msg)
         }
         if (readsVarying && o.role[k] == "computed_constant") {
             msg = "class " + std::to_string(k) + " (" + firstInstance(k) + ") is reported as a computed constant although its defining equation reads a variable reported as " + which;
-            return "C05.truth|role-coherence|computed_constant-reads-" + which;
+            return "C05.truth|role-coherence|computed_constant-reads-" + which + (readsGuessedUnknown(m, k) ? "|reader-of-guessed-unknown" : "");
         }
         if (!readsVarying && o.role[k] == "algebraic") {
             msg = "class " + std::to_string(k) + " (" + firstInstance(k) + ") is reported as algebraic although its defining equation reads only constants and computed constants";
@@ -660,14 +692,14 @@ std::string compareObs(const TM &m, const Obs &a, const Obs &b, std::string &msg
         if (a.role[k] != b.role[k]) {
             o << "class " << k << " (" << gtRoleName(m.classes[k].role) << " by construction) was reported as " << a.role[k] << " and is now reported as " << b.role[k];
             msg = o.str();
-            return "role|" + a.role[k] + "->" + b.role[k];
+            return "role|" + a.role[k] + "->" + b.role[k] + (readsGuessedUnknown(m, k) ? "|reader-of-guessed-unknown" : "");
         }
     }
     for (size_t k = 0; k < m.classes.size(); ++k) {
         if (a.eqKinds[k] != b.eqKinds[k]) {
             o << "class " << k << " (" << gtRoleName(m.classes[k].role) << " by construction) was computed by [" << a.eqKinds[k] << "] and is now computed by [" << b.eqKinds[k] << "]";
             msg = o.str();
-            return "equation-kind|" + a.eqKinds[k] + "->" + b.eqKinds[k];
+            return "equation-kind|" + a.eqKinds[k] + "->" + b.eqKinds[k] + (readsGuessedUnknown(m, k) ? "|reader-of-guessed-unknown" : "");
         }
     }
     if (a.eqTypes != b.eqTypes) {
